@@ -14,10 +14,11 @@ RULE = ('Generated LVS schema ASTs (2..7 definitions; rule ids defined once or s
         'items from {literal of a 5-word alphabet incl. a typed component, named pattern x/y/z, temporary pattern _/_t, reference to an '
         'earlier rule - possibly the same rule twice}; 0..2 constraint sets of 1..2 terms with literal / pattern / $eq / $eq_type / two '
         'custom user functions as options; acyclic signing lists) rendered to text with varying whitespace, comments and leading '
-        'slash. Each schema is probed with ALL names of length 0..4 over (schema literals + 2 fresh components), with and without a '
+        'slash, the rules optionally moved out of dependency order. Each schema is probed with ALL names of length 0..4 over (schema literals + 2 fresh components), with and without a '
         'trailing implicit-digest component sample. Oracle: reference LVS interpreter (expansion with fresh identity per temporary '
         'occurrence, left-to-right matching, constraints evaluated at first occurrence) - the set {(rule, bindings)} over '
-        'non-temporary rules must be equal, for the direct checker AND after save()/load(). Non-trivial = schema with >=1 rule '
+        'non-temporary rules must be equal, for the direct checker AND after save()/load(); also when earlier match() iterators were dropped after '
+        'their first result or are still open while the next name is matched. Non-trivial = schema with >=1 rule '
         'reference and >=1 constraint, probed by >=1 matching and >=1 non-matching name; distinct key = schema hash.')
 ASSUMPTIONS = [
     'constraints only name patterns that occur in the rule\'s own expanded name (the documented way to use them)',
